@@ -230,3 +230,112 @@ Proof.
   - repeat constructor; unfold Qle; cbn; lia.
   - vm_compute. repeat split.
 Qed.
+
+(* ================================================================================================
+   The component computation of the model (label merging, Model/NetStats.v) IS the partition of the node set
+   into connected components: same label iff connected, every label is the least node of its class, the size
+   list is that of EVERY partition into components, and the reported component count, largest and second-largest
+   sizes are read off it.  Proofs/NetStatsComp.v. *)
+Close Scope Q_scope.
+From EpyV Require Import Proofs.NetStatsComp.
+
+Theorem C12_labels_same_iff_connected :
+  forall (nodes : list Z) (es : list edge),
+         closed nodes es ->
+         forall x y : Z,
+         In x nodes ->
+         In y nodes -> label_of (labels nodes es) x = label_of (labels nodes es) y <-> connected es x y.
+Proof. exact labels_same_iff_connected. Qed.
+
+Theorem C12_label_is_min_of_class :
+  forall (nodes : list Z) (es : list edge),
+         closed nodes es ->
+         forall x : Z,
+         In x nodes ->
+         let l := label_of (labels nodes es) x in
+         In l nodes /\
+         connected es x l /\
+         label_of (labels nodes es) l = l /\ (forall y : Z, In y nodes -> connected es x y -> (l <= y)%Z).
+Proof. exact label_is_min_of_class. Qed.
+
+Theorem C12_components_partition :
+  forall (nodes : list Z) (es : list edge),
+         NoDup nodes -> closed nodes es -> is_partition nodes es (components nodes es).
+Proof. exact components_partition. Qed.
+
+Theorem C12_component_sizes_spec :
+  forall (nodes : list Z) (es : list edge),
+         NoDup nodes ->
+         closed nodes es ->
+         exists cs : list (list Z),
+           is_partition nodes es cs /\ NoDup (concat cs) /\ component_sizes nodes es = map (length (A:=Z)) cs.
+Proof. exact component_sizes_spec. Qed.
+
+Theorem C12_component_sizes_any_partition :
+  forall (nodes : list Z) (es : list edge),
+         NoDup nodes ->
+         closed nodes es ->
+         forall cs : list (list Z),
+         is_partition nodes es cs -> Permutation (component_sizes nodes es) (map (length (A:=Z)) cs).
+Proof. exact component_sizes_any_partition. Qed.
+
+Theorem C12_representatives_spec :
+  forall (nodes : list Z) (es : list edge),
+         NoDup nodes ->
+         closed nodes es ->
+         let reps := representatives nodes es in
+         NoDup reps /\
+         (forall r : Z, In r reps -> In r nodes) /\
+         (forall n : Z, In n nodes -> exists r : Z, In r reps /\ connected es n r) /\
+         (forall r r' : Z, In r reps -> In r' reps -> connected es r r' -> r = r') /\
+         length (component_sizes nodes es) = length reps.
+Proof. exact representatives_spec. Qed.
+
+Theorem C12_component_sizes_sum :
+  forall (nodes : list Z) (es : list edge),
+         NoDup nodes -> closed nodes es -> list_sum (component_sizes nodes es) = length nodes.
+Proof. exact component_sizes_sum. Qed.
+
+Theorem C12_stats_components_spec :
+  forall (nodes : list Z) (es : list edge),
+         NoDup nodes ->
+         closed nodes es ->
+         forall cs : list (list Z),
+         is_partition nodes es cs ->
+         let st := statistics nodes es in
+         s_components st = length cs /\
+         (forall c : list Z, In c cs -> length c <= s_lcc st) /\
+         (cs <> [] -> exists c : list Z, In c cs /\ length c = s_lcc st) /\
+         (length cs <= 1 -> s_slcc st = 0) /\
+         (2 <= length cs ->
+          exists (c1 c2 : list Z) (rest : list (list Z)),
+            Permutation cs (c1 :: c2 :: rest) /\
+            length c1 = s_lcc st /\
+            length c2 = s_slcc st /\
+            s_slcc st <= s_lcc st /\ (forall c : list Z, In c rest -> length c <= s_slcc st)).
+Proof. exact stats_components_spec. Qed.
+
+Theorem C12_stats_components_computed :
+  forall (nodes : list Z) (es : list edge),
+         NoDup nodes ->
+         closed nodes es ->
+         let st := statistics nodes es in
+         s_components st = length (components nodes es) /\
+         s_components st = length (representatives nodes es) /\
+         (nodes <> [] -> 1 <= s_components st /\ 1 <= s_lcc st) /\ s_lcc st <= length nodes.
+Proof. exact stats_components_computed. Qed.
+
+Example C12_components_example :
+  let nodes := [4%Z; 1%Z; 7%Z; 5%Z; 3%Z; 9%Z] in
+         let es := [(5%Z, 9%Z); (9%Z, 9%Z); (7%Z, 1%Z); (3%Z, 9%Z); (9%Z, 5%Z); (5%Z, 9%Z)] in
+         NoDup nodes /\
+         closed nodes es /\
+         labels nodes es = [(4%Z, 4%Z); (1%Z, 1%Z); (7%Z, 1%Z); (5%Z, 3%Z); (3%Z, 3%Z); (9%Z, 3%Z)] /\
+         components nodes es = [[4%Z]; [1%Z; 7%Z]; [5%Z; 3%Z; 9%Z]] /\
+         representatives nodes es = [4%Z; 1%Z; 3%Z] /\
+         component_sizes nodes es = [1; 2; 3] /\
+         s_components (statistics nodes es) = 3 /\
+         s_lcc (statistics nodes es) = 3 /\
+         s_slcc (statistics nodes es) = 2 /\ connected es 5 3 /\ ~ connected es 7 3 /\ ~ connected es 4 1.
+Proof. exact components_example. Qed.
+
